@@ -332,8 +332,9 @@ PROPS['C06'] = Prop(
               Run('q_threads_ops1_s2_auto_p1', 'q_threads.cpp', {'MODE': 6, 'TT': 2, 'SS': 2, 'OPSET': 1}, preempt=1, covers=2, mt=True, shared_points=True, native=(), budget_s=1700, bounds=_QT % (2, 2, _OPS1, '', 1, _SP_AUTO))],
     outside='more threads / calls per thread / preemptions than stated; HeterEventQueue under threads; weak memory (SC only)',
     assumptions=['per-event ledger: dispatched + taken <= 1 always, == 1 after the final single-threaded drain unless a clearEvents call could have discarded the event; FIFO per (producer, consumer) pair'])
+_DQNV = Run('dqn_values_queue_k3', 'copymove.cpp', {'KK': 3, 'OBJ': 2}, covers=11, optional_covers=(7, 8, 9, 10), bounds='"waitFor times out only while ... no DisableQueueNotify object exists": the C10 queue history (K=3) whose alphabet includes two DisableQueueNotify objects used as values (one move-assigned onto the other, both destroyed): afterwards waitFor(0) reports pending events on every object')
 PROPS['C11'] = Prop(
-    quick=[Run('q_observer_t1_s2_p3', 'q_threads.cpp', {'MODE': 11, 'TT': 1, 'SS': 2, 'OPSET': 1}, preempt=3, covers=5, optional_covers=(0, 1, 2), mt=True, bounds=_QT % (1, 2, _OPS1, ' + one observer thread calling emptyQueue() or waitFor(timeout); in every run the listener itself also calls emptyQueue() (single-threaded variant)', 3, _SP_HOOKS)),
+    quick=[_DQNV, Run('q_observer_t1_s2_p3', 'q_threads.cpp', {'MODE': 11, 'TT': 1, 'SS': 2, 'OPSET': 1}, preempt=3, covers=5, optional_covers=(0, 1, 2), mt=True, bounds=_QT % (1, 2, _OPS1, ' + one observer thread calling emptyQueue() or waitFor(timeout); in every run the listener itself also calls emptyQueue() (single-threaded variant)', 3, _SP_HOOKS)),
            Run('q_observer_t1_s1_auto_p2', 'q_threads.cpp', {'MODE': 11, 'TT': 1, 'SS': 1, 'OPSET': 1}, preempt=2, covers=5, optional_covers=(0, 1, 2), mt=True, shared_points=True, native=(), bounds=_QT % (1, 1, _OPS1, ' + one observer thread', 2, _SP_AUTO)),
            Run('q_observer_t2_s1_p1', 'q_threads.cpp', {'MODE': 11, 'TT': 2, 'SS': 1, 'OPSET': 1}, preempt=1, covers=5, optional_covers=(1, 2, 4), mt=True, bounds=_QT % (2, 1, _OPS1, ' + one observer thread', 1, _SP_HOOKS)),
            Run('hq_observer_t1_s2_p2', 'q_threads.cpp', {'MODE': 11, 'TT': 1, 'SS': 2, 'OPSET': 5, 'HETER': None}, preempt=2, covers=5, optional_covers=(0, 1, 2, 3, 4), mt=True, native=(), bounds=_NOREP + _QTH % (1, 2, _OPS5, ' + one observer thread calling emptyQueue() or waitFor()', 2, _SP_HOOKS))],
